@@ -36,6 +36,10 @@ def _filters(db):
                 chain |= {x.id for x in m.classes[b].bases if isinstance(x, ast.Name)}
         if "Filter" in chain or q == "QueryFilter":
             out.append(q)
+    # a private class that only serves as the common base of other filters of the module is analysed through them (its __call__ is resolved by inheritance)
+    def has_sub(q):
+        return any(any(isinstance(b, ast.Name) and b.id == q for b in c.bases) for c in m.classes.values())
+    out = [q for q in out if not (q.startswith("_") and has_sub(q))]
     return m, out
 
 
